@@ -176,6 +176,20 @@ def run(ctx):
                 bs.discard(0)
                 for b in sorted(bs):
                     sweep.append((run_line(p, e, m=b), c, b, tag))
+    # the adapters at work: the same directed programs through the reference with the historical
+    # switches; every named adapter must change the outcome of some program (else it names nothing)
+    ad = [(p, e, tag) for p, e, tag in pool if tag.startswith("adapter:")]
+    cur_o = vlib.run_model("ref", [run_line(p, e) for p, e, _ in ad])
+    hist_o = vlib.run_model("ref", [run_line(p, e, ad="hist") for p, e, _ in ad])
+    seen = {}
+    for (p, e, tag), a, b in zip(ad, cur_o, hist_o):
+        ctx.evaluations += 1
+        k = "differs" if a != b else "same"
+        ctx.histogram("adapter_effect:" + tag.split(":")[1], k)
+        seen.setdefault(tag.split(":")[1], set()).add(k)
+    for name, ks in seen.items():
+        if "differs" not in ks and name not in ("nil-terminator", "unknown-cap"):   # those two are equal in both adapter sets
+            ctx.notes.append("no directed program distinguishes current from historical adapters for " + name)
     lap("unlimited runs")
     # budgets: C, C-1, C+1, C/2, random, 1
     slines = [s[0] for s in sweep]
